@@ -3,6 +3,7 @@ package vsim
 import (
 	"fmt"
 	"net"
+	"sort"
 
 	gnet "github.com/panjf2000/gnet/v2"
 	"golang.org/x/sys/unix"
@@ -109,6 +110,7 @@ func (w *World) udpClientTraffic(cs *connState) gnet.Action {
 	c := cs.c
 	ps := w.peers[cs.idx]
 	// the datagram this loop's last recvfrom returned
+	w.checkUDPOpenReply(cs)
 	var rec *vsys.UDPRecvRec
 	for i := len(w.k.UDPRecv) - 1; i >= 0; i-- {
 		if w.k.UDPRecv[i].Fd == cs.fd {
@@ -120,6 +122,12 @@ func (w *World) udpClientTraffic(cs *connState) gnet.Action {
 		}
 	}
 	if rec == nil && ps.udpEmpty {
+		return gnet.None
+	}
+	if rec == nil && cs.wakesDue > 0 {
+		// no datagram: the OnTraffic of an accepted Wake
+		cs.wakesDue--
+		w.probes["wake-traffic"]++
 		return gnet.None
 	}
 	if rec == nil {
@@ -157,7 +165,13 @@ func (w *World) udpClientTraffic(cs *connState) gnet.Action {
 				w.violate("C08", "client-write", "conn %d (udp client): Write of %d bytes returned (%d, %v)", cs.idx, op.N, n, err)
 				continue
 			}
-			if len(w.k.UDPSent) != before+1 || string(w.k.UDPSent[before].Payload) != string(data) || w.k.UDPSent[before].Fd != cs.fd {
+			var mine []int // (other loops send on their own sockets meanwhile)
+			for i := before; i < len(w.k.UDPSent); i++ {
+				if w.k.UDPSent[i].Fd == cs.fd {
+					mine = append(mine, i)
+				}
+			}
+			if len(mine) != 1 || string(w.k.UDPSent[mine[0]].Payload) != string(data) {
 				w.violate("C08", "client-reply", "conn %d (udp client): Write of %d bytes did not result in exactly one datagram with those bytes on its socket", cs.idx, op.N)
 			}
 		}
@@ -173,6 +187,9 @@ func GenerateClient(seed uint64, prop, tier string) *Plan {
 	c := &p.Cfg
 	c.Client = true
 	c.Network = []string{"tcp", "tcp", "unix"}[r.Intn(3)]
+	if prop == "C08" {
+		c.Network = "tcp"
+	}
 	c.Host = "127.0.0.1"
 	c.Loops = r.Pick(1, 1, 2, 3)
 	switch r.Intn(4) {
@@ -196,6 +213,12 @@ func GenerateClient(seed uint64, prop, tier string) *Plan {
 	c.RcvBuf = r.Pick(0, 1024, 65536)
 	c.Ticker = r.Chance(1, 5)
 	c.TickMs = 10
+	if c.Ticker && r.Chance(1, 2) {
+		for n := r.Range(1, 4); n > 0; n-- {
+			c.TickAt = append(c.TickAt, r.Pick(3, 10, 30, 60, 150))
+		}
+		sort.Ints(c.TickAt)
+	}
 	c.Strategy = []string{"random", "random", "pct", "starve"}[r.Intn(4)]
 	c.Quantum = r.Pick(1, 1, 3, 10)
 	c.PCTDepth = r.Range(1, 3)
@@ -216,8 +239,11 @@ func GenerateClient(seed uint64, prop, tier string) *Plan {
 	}
 	for i := 0; i < n; i++ {
 		cp := ConnPlan{Dial: true}
-		if c.Network != "unix" && r.Chance(1, 4) {
+		if c.Network != "unix" && (r.Chance(1, 4) || prop == "C08") {
 			cp.UDP = true
+			if r.Chance(1, 3) {
+				cp.OpenReply = r.Pick(1, 100, 1400)
+			}
 			for j := r.Range(1, 4); j > 0; j-- {
 				cp.Peer = append(cp.Peer, PeerOp{K: "send", N: r.Pick(0, 1, 100, rb, rb+1, 1400)})
 				cp.Traffic = append(cp.Traffic, TStep{W: genUDPReplies(r)})
